@@ -12,11 +12,16 @@ import puml
 LEVEL = "model_checking"
 
 
+# beyond fragment F (the break branch is not made of plain events): a loop whose break point is itself a loop
+EXTRAS = ["A;loop{B;XOR(C;loop{D};break|E)};F", "A;loop{B;XOR(loop{C};break|D)};E", "A;loop{B;XOR(C;loop{D;E};break|F);G};H"]
+
+
 def case_list(tier, seed):
     if tier == "quick":
         named, ks, npres = le.corpus_defs() + le.f_defs(5) + le.triple_defs() + le.sampled_defs(200, seed, 6, 14, 400), (1, 2), 2
     else:
         named, ks, npres = le.corpus_defs() + le.f_defs(6) + le.triple_defs() + le.sampled_defs(1200, seed, 7, 18, 500), (1, 2, 3), 3
+    named = named + [("X:" + t, le.parse_text(t)) for t in EXTRAS]
     seen, out = set(), []
     for n, d in named:
         if n not in seen:
